@@ -293,6 +293,7 @@ func (fr *frame) execInstr(in ssa.Instruction, st *State) {
 		mt := under(x.Map.Type()).(*types.Map)
 		fr.safety(st, "nil-map-write", operandName(x.Map), Not(Eq(m, Nil)), x.Pos())
 		fr.hashable(st, fr.val(x.Key), mt.Key(), x.Pos())
+		fr.atCall("mapupdate:"+sourceName(x.Map), st, x.Pos(), nil, []T{fr.val(x.Key), fr.val(x.Value)}, x)
 		c.mapStore(st, m, mt, fr.val(x.Key), fr.val(x.Value))
 	case *ssa.MakeMap:
 		mt := under(x.Type()).(*types.Map)
@@ -1095,4 +1096,17 @@ func storesGlobal(fn *ssa.Function, g *ssa.Global, isInit bool) bool {
 		}
 	}
 	return true
+}
+
+// sourceName: the source-level variable an SSA value is bound to (via debug
+// references), else its operand rendering.
+func sourceName(v ssa.Value) string {
+	if refs := v.Referrers(); refs != nil {
+		for _, in := range *refs {
+			if d, ok := in.(*ssa.DebugRef); ok && !d.IsAddr && d.Object() != nil {
+				return d.Object().Name()
+			}
+		}
+	}
+	return operandName(v)
 }
